@@ -202,11 +202,18 @@ stringify(const string &source) {
         break;
 
       case '\'':
-        state ^= S_single_quoted;
+        // An apostrophe inside a string literal does not start a character
+        // literal.
+        if ((state & S_double_quoted) == 0) {
+          state ^= S_single_quoted;
+        }
         break;
 
       case '"':
-        state ^= S_double_quoted;
+        // Nor does a double quote inside a character literal start a string.
+        if ((state & S_single_quoted) == 0) {
+          state ^= S_double_quoted;
+        }
         result += '\\';
         break;
       }
